@@ -94,11 +94,11 @@ PROPS = {
         "assumptions": VM_ASSUME + ["the specification side of the comparison is the interpreter model with every recorded deviation switched off (Quirks.spec); gas, GAS/GASLIMIT-dependent programs and out-of-gas runs are not compared (gas accounting may differ)"],
     },
     "C17": {
-        "lean": ["Shentu.Props.C17", "Shentu.Props.C18vm"],
+        "lean": ["Shentu.Props.C17", "Shentu.Props.C18vm", "Shentu.Props.C10"],
         "drivers": ["vmdriver", "chaindriver"],
         "engines": VM_ENGINES + [chain("bankvm", 64, 640, ops=100)],
         "trusted": VM_TRUST,
-        "assumptions": VM_ASSUME,
+        "assumptions": VM_ASSUME + ["what is charged depends on parameters (the gas rate) and meters that must be read from the store at every execution: the regenerated inventory of in-memory state in keepers and packages (C10.no_unreviewed_sites) is an obligation of this property as well"],
     },
     "C01": dict(BANKVM, lean=["Shentu.Props.C01", "Shentu.Props.C01s", "Shentu.Props.C01vm", "Shentu.Props.C01run", "Shentu.Props.C01m"], drivers=["chaindriver", "vmdriver"],
                 engines=[chain("bankvm", 96, 960, ops=100), chain("gov", 48, 480, ops=100), chain("oracle", 48, 480), chain("shield", 32, 320, ops=120), chain("staking", 32, 320, ops=100),
